@@ -718,3 +718,43 @@ def c04_random_loci(tier, rng):
                      "undecided": True})
     return {"cases": cases, "bound": "%d pipeline runs x 6 generated loci (%d novel models reported)" % (cases, sum(novel)), "violations": viol,
             "samples": [{"seed": base, "novel_models": sum(novel)}]}
+
+
+# ---- which tail evidence a novel FL path hands to the strand decision ----------------------------------------------------------------------------
+def _tail_evidence_extract(fdef):
+    """construct_fl_isoforms: the assignments of has_polyt / has_polya / polya_site for a novel FL path, as a function of `path` and
+    `intron_path`, returning (has_polya, has_polyt, polya_site); the VERTEX_* names are replaced by their values in src/intron_graph.py;
+    everything else of the method is dropped"""
+    import copy
+    ig = native.repo_import("src/intron_graph.py")
+    keep = []
+    for n in ast.walk(fdef):
+        if isinstance(n, ast.Assign) and isinstance(n.targets[0], ast.Name) and n.targets[0].id in ("has_polyt", "has_polya", "polya_site"):
+            keep.append(copy.deepcopy(n))
+    if {k.targets[0].id for k in keep} != {"has_polyt", "has_polya", "polya_site"}:
+        raise front.Missing("has_polyt / has_polya / polya_site not found in construct_fl_isoforms")
+    keep.sort(key=lambda n: n.lineno)
+
+    class Consts(ast.NodeTransformer):
+        def visit_Name(self, node):
+            if node.id.startswith("VERTEX_") and hasattr(ig, node.id):
+                return ast.copy_location(ast.Constant(value=getattr(ig, node.id)), node)
+            return node
+    keep = [Consts().visit(k) for k in keep]
+    ret = ast.Return(value=ast.Tuple(elts=[ast.Name(id=x, ctx=ast.Load()) for x in ("has_polya", "has_polyt", "polya_site")], ctx=ast.Load()))
+    args = ast.arguments(posonlyargs=[], args=[ast.arg(arg=a) for a in ("self", "path", "intron_path")], kwonlyargs=[], kw_defaults=[], defaults=[])
+    return ast.fix_missing_locations(ast.FunctionDef(name="construct_fl_isoforms", args=args, body=keep + [ret], decorator_list=[],
+                                                     lineno=fdef.lineno, col_offset=0))
+
+
+contract(G + "GraphBasedModelConstructor.construct_fl_isoforms#tail_evidence", {"self": "rec:CtorStrand", "path": IVS, "intron_path": IVS},
+         returns="tuple[bool,bool,bool]", props=["C18", "C04", "C11"], extract=_tail_evidence_extract, native=False,
+         # shape of a full-length path in the intron graph: a start vertex (polyT -20 or read start -21), the introns, an end vertex (polyA -10
+         # or read end -11); intron_path is the path without its two terminal vertices
+         requires=["len(path) >= 3", "len(intron_path) == len(path) - 2", "all(intron_path[i] == path[i + 1] for i in range(len(intron_path)))",
+                   "all(intron_path[i][0] >= 0 for i in range(len(intron_path)))",
+                   "path[0][0] == -20 or path[0][0] == -21", "path[len(path) - 1][0] == -10 or path[len(path) - 1][0] == -11"],
+         # polyT evidence = the path starts at a polyT vertex, polyA evidence = it ends at a polyA vertex (mirror images), and the model counts
+         # as having a polyA site when either holds
+         ensures=["result[1] == (path[0][0] == -20)", "result[0] == (path[len(path) - 1][0] == -10)", "result[2] == (result[0] or result[1])"],
+         canary="not result[1]")
